@@ -200,24 +200,35 @@ def final_check(name: str, obs: Observer):
 
 
 def _name_class(obs: Observer, default: str, job: Optional[Tuple[int, int]] = None) -> str:
+    """Attribute a discrepancy to a KNOWN mechanism only on evidence in the history itself, most specific evidence first:
+    (1) evidence about the offending job and the CURRENT op, (2) evidence about the offending job, (3) evidence about the current op,
+    (4) history-wide flags.  Everything else keeps the generic class and alarms."""
     v = obs.cur
-    if job is not None and job in v.jobs and obs.prev is not None:
-        # the current op is the (late) commit of the offending job's own update and that commit visibly reset a job of the update that
-        # had already run: commit_batch_update of a non-first update rewrites state / n_pending_parents of EVERY job of the update from the
-        # parents' states, also of jobs that were activated and ran while the update was uncommitted
-        ws = obs.op.split()
-        if ws[0] == 'commit' and obs.ans == 'ok 0' and (int(ws[1]), int(ws[2])) == (job[0], v.jobs[job]['update_id']) and int(ws[2]) != 1:
-            for k2, o in obs.prev.jobs.items():
-                j2 = v.jobs.get(k2)
-                if j2 is not None and k2[0] == job[0] and o['update_id'] == int(ws[2]) and \
-                        o['state'] in TERMINAL + ('Running', 'Creating') and j2['state'] in ('Ready', 'Pending'):
-                    return 'commit-resets-job-of-late-committed-update'
+    ws = obs.op.split()
+    late_commit = ws[0] == 'commit' and obs.ans == 'ok 0' and int(ws[2]) != 1 and obs.prev is not None
+    if job is not None and job in v.jobs and late_commit and int(ws[1]) == job[0]:
+        # the current op is the commit of a non-first update and it visibly RESET the offending job or one of its parents, which had already
+        # run: commit_batch_update rewrites state / n_pending_parents of EVERY job of the update from the parents' states as read before
+        # the statement, also of jobs that were activated and ran while the update was uncommitted
+        for k2 in [job] + [(job[0], p) for p in v.parents.get(job, [])]:
+            o, j2 = obs.prev.jobs.get(k2), v.jobs.get(k2)
+            if o is not None and j2 is not None and o['update_id'] == int(ws[2]) and \
+                    o['state'] in TERMINAL + ('Running', 'Creating') and j2['state'] in ('Ready', 'Pending'):
+                return 'commit-resets-job-of-late-committed-update'
     if job is not None and job in v.jobs:
         # the offending job itself has a parent whose row arrived after the job's update was committed: that mechanism explains it,
         # whatever else happened in the history
         cs = obs.commit_step.get((job[0], v.jobs[job]['update_id']))
         if cs is not None and any(obs.insert_step.get((job[0], p), -1) > cs for p in v.parents.get(job, [])):
             return 'parent-inserted-after-child-update-committed'
+    if ws[0] == 'commit' and obs.ans == 'ok 0':
+        # the current op commits an update some of whose jobs sit under a group that was cancelled BEFORE this commit: commit_batch_update
+        # adds the staged ready counts without looking at cancellation
+        b, u = int(ws[1]), int(ws[2])
+        for j in v.jobs.values():
+            if j['batch_id'] == b and j['update_id'] == u and \
+                    any(obs.cancel_step.get((b, a), obs.step) < obs.step for a in v.anc.get((b, j['job_group_id']), [])):
+                return 'commit-after-cancel-of-ancestor-group'
     if any(not v.committed(j['batch_id'], j['update_id']) and not v.parents.get((j['batch_id'], j['job_id'])) and j['state'] not in ('Pending', 'Ready')
            and j['update_id'] == 1 for j in v.jobs.values()):
         return 'ready-job-of-uncommitted-update-scheduled-in-running-group'
@@ -516,7 +527,7 @@ def c04(obs: Observer):
                 cls = 'commit-resets-job-of-late-committed-update' if obs.op.startswith('commit') else f'terminal-not-absorbing:{a}->{b}'
                 return (cls, f'job {k} was {a} (terminal) and is now {b}')
         elif b not in ALLOWED[a]:
-            cls = 'commit-resets-job-of-late-committed-update' if obs.op.startswith('commit') else _name_class(obs, f'illegal-transition:{a}->{b}')
+            cls = 'commit-resets-job-of-late-committed-update' if obs.op.startswith('commit') else _name_class(obs, f'illegal-transition:{a}->{b}', k)
             return (cls, f'job {k} moved {a} -> {b}')
     for k in p.jobs:
         if k not in v.jobs:
